@@ -305,6 +305,8 @@ def _nib_entries():
     from trie.exceptions import MissingTraversalNode, MissingTrieNode, TraversedPartialPath
     return [
         ("Nibbles(seq)", E, lambda w, x: Nibbles(x)),
+        ("Nibbles((1,)) + seq", E, lambda w, x: Nibbles((1,)) + (tuple(x) if isinstance(x, list) else x)),
+        ("HexaryTrie.traverse(Nibbles(()) + seq)", E, lambda w, x: w.hex.traverse(Nibbles(()) + (tuple(x) if isinstance(x, list) else x))),
         ("HexaryTrie.traverse(seq)", E, lambda w, x: w.hex.traverse(x)),
         ("HexaryTrie.traverse_from(root_node, seq)", E, lambda w, x: w.hex.traverse_from(w.hex.root_node, x)),
         ("HexaryTrieFog.explore(seq, ())", E, lambda w, x: w.fog.explore(x, ())),
